@@ -433,6 +433,14 @@ Proof.
       * intros s0 j Hs0. unfold release1. apply Nat.ltb_lt in Hs0. rewrite Hs0. apply Nat.ltb_lt in Hs0. cbn [andb].
         destruct (in_map (sess_of st s0)) eqn:EM; cbn; apply (r_sel st HI); assumption.
     + discriminate.
+  - (* RawAccept *)
+    apply (rinv_frame st); auto; try (cbn; apply orb_false_r); cbn [step set_hs sess_of delivered backlog closing cl_of lmark]; try (exact (r_clmark st HI));
+      try (exact (r_deliv st HI)); try (exact (r_bl st HI)); try (exact (r_cl st HI)); try (exact (r_sel st HI)).
+    intros s0 Hs0. repeat split; auto. intro Hr. apply (r_unreg st HI _ Hs0 Hr).
+  - (* HandshakeFail *)
+    apply (rinv_frame st); auto; try (cbn; apply orb_false_r); cbn [step set_hs sess_of delivered backlog closing cl_of lmark]; try (exact (r_clmark st HI));
+      try (exact (r_deliv st HI)); try (exact (r_bl st HI)); try (exact (r_cl st HI)); try (exact (r_sel st HI)).
+    intros s0 Hs0. repeat split; auto. intro Hr. apply (r_unreg st HI _ Hs0 Hr).
 Qed.
 
 Lemma run_app : forall a b st, run (a ++ b) st = run b (run a st).
@@ -566,7 +574,7 @@ Qed.
 
 Ltac oframe st HI :=
   apply (oinv_frame st); auto;
-  cbn [step set_sess set_sessions set_cl sess_of backlog recv_log enq_log cap aclosed wr nsess nwr];
+  cbn [step set_sess set_sessions set_cl set_hs sess_of backlog recv_log enq_log cap aclosed wr nsess nwr];
   try (apply (o_log st HI)); try (apply (o_cap st HI));
   try (solve [intros; auto]); try (solve [intros; tauto]).
 
@@ -670,7 +678,7 @@ Proof.
          nwr := nwr st; wr := wr st; ncl := ncl st; cl_of := cl_of st; cap := cap st;
          backlog := backlog st ++ [w0]; delivered := delivered st; closing := closing st; aclosed := aclosed st;
          enq_log := enq_log st ++ [w0]; recv_log := recv_log st;
-         lmark := lmark st; closeCh := closeCh st; lreleased := lreleased st; panic := panic st |} x
+         lmark := lmark st; closeCh := closeCh st; lreleased := lreleased st; hs_pending := hs_pending st; panic := panic st |} x
          = (occ st x + (if Nat.eqb w0 x then 1 else 0))%nat).
     { intro x. occ_norm. lia. }
     constructor; try (intro x; rewrite Hocc); cbn [nsess sess_of nwr wr delivered backlog closing aclosed enq_log recv_log cap];
@@ -694,7 +702,7 @@ Proof.
          nwr := nwr st; wr := wr st; ncl := ncl st; cl_of := cl_of st; cap := cap st;
          backlog := backlog st; delivered := delivered st; closing := closing st ++ [w0]; aclosed := aclosed st;
          enq_log := enq_log st; recv_log := recv_log st;
-         lmark := lmark st; closeCh := closeCh st; lreleased := lreleased st; panic := panic st |} x
+         lmark := lmark st; closeCh := closeCh st; lreleased := lreleased st; hs_pending := hs_pending st; panic := panic st |} x
          = (occ st x + (if Nat.eqb w0 x then 1 else 0))%nat).
     { intro x. occ_norm. lia. }
     constructor; try (intro x; rewrite Hocc); cbn [nsess sess_of nwr wr delivered backlog closing aclosed enq_log recv_log cap];
@@ -763,6 +771,8 @@ Proof.
       * intros s0 Hs0. unfold release1. destruct ((s0 <? nsess st)%nat && in_map (sess_of st s0)); cbn; auto.
       * intros s0 w Hs0. unfold release1. destruct ((s0 <? nsess st)%nat && in_map (sess_of st s0)); cbn; tauto.
     + exact HI.
+  - (* RawAccept *) oframe st HI.
+  - (* HandshakeFail *) oframe st HI.
 Qed.
 
 Lemma oinv_run : forall evs st, OInv st -> OInv (run evs st).
@@ -819,7 +829,7 @@ Qed.
 
 Ltac dframe st HI :=
   apply (dinv_frame st); auto;
-  cbn [step set_sess set_sessions set_cl sess_of backlog lmark closeCh ncl nsess cl_of];
+  cbn [step set_sess set_sessions set_cl set_hs sess_of backlog lmark closeCh ncl nsess cl_of];
   try lia; try (solve [intros; auto]); try (solve [intros; congruence]).
 
 Lemma take_head_backlog : forall st, backlog (take_head st) <> [] -> backlog st <> [].
@@ -922,6 +932,8 @@ Proof.
         rewrite EK in E. destruct Hc; subst; discriminate.
       * intros s0 Hs p Hp E. unfold release1. destruct ((s0 <? nsess st)%nat && in_map (sess_of st s0)); cbn; assumption.
     + exact HI.
+  - (* RawAccept *) dframe st HI.
+  - (* HandshakeFail *) dframe st HI.
 Qed.
 
 Lemma dinv_run : forall evs st, DInv st -> DInv (run evs st).
@@ -981,7 +993,7 @@ Proof. intros st w. unfold close_wrapper. destruct (w_closed (wr st w)); reflexi
 Lemma nsess_mono : forall st e, (nsess st <= nsess (exec st e))%nat.
 Proof.
   intros st e. unfold exec. destruct (enabled st e); [|lia].
-  destruct e; cbn [step set_sess set_sessions nsess]; try lia.
+  destruct e; cbn [step set_sess set_sessions set_hs nsess]; try lia.
   - destruct (in_map (sess_of st s)); cbn; lia.
   - destruct (loop (sess_of st s)); cbn; lia.
   - destruct (loop (sess_of st s)); cbn; lia.
@@ -1056,6 +1068,8 @@ Proof.
     + unfold wgz_rel. cbn [sess_of]. unfold release1. apply Nat.ltb_lt in Hs. rewrite Hs. apply Nat.ltb_lt in Hs. cbn [andb].
       destruct (in_map (sess_of st s)) eqn:EM; [|split; [tauto|congruence]].
       cbn [wg_zero refs registered]. exact (wgz_done1 _ (Hreg s Hs)).
+  - apply wgz_same; reflexivity.
+  - apply wgz_same; reflexivity.
 Qed.
 
 Lemma wgz_mono_run : forall evs st s, RInv st -> (s < nsess st)%nat ->
@@ -1070,7 +1084,7 @@ Lemma new_session_not_zero : forall st e s, (nsess st <= s)%nat -> (s < nsess (e
   wg_zero (sess_of (exec st e) s) = false.
 Proof.
   intros st e s Hge Hs. unfold exec in *. destruct (enabled st e) eqn:En; [|lia].
-  destruct e; cbn [step set_sess set_sessions nsess sess_of] in *; try lia.
+  destruct e; cbn [step set_sess set_sessions set_hs nsess sess_of] in *; try lia.
   - assert (s = nsess st) by lia. subst s. rewrite updf_same. destruct (lmark st); reflexivity.
   - destruct (in_map (sess_of st s0)); cbn in Hs; lia.
   - destruct (loop (sess_of st s0)); cbn in Hs; lia.
@@ -1198,7 +1212,7 @@ Definition add_from_zero (st : state) (e : event) : bool :=
 Definition no_waitgroup_reuse_full : Prop := forall c evs e, add_from_zero (run evs (init c)) e = false.
 
 (* the history that produced an Add from zero before the repair: now the stream is closed unwrapped *)
-Definition witness_reuse : list event := [SessionUp; LCall; LStep 0; LStep 0; LStep 0; LStep 0; StreamIn 0; Wrap 0].
+Definition witness_reuse : list event := [RawAccept; RawAccept; SessionUp; LCall; LStep 0; LStep 0; LStep 0; LStep 0; StreamIn 0; Wrap 0].
 
 Lemma no_waitgroup_reuse : no_waitgroup_reuse_full.
 Proof.
